@@ -75,28 +75,7 @@ def check(ctx, rep):
                     rep.ob("R-SETTER", key + ": no dispatch without a transition", not disp, "callbacks dispatched on a path that did not change the state", where_of(m), trace_of(p))
             rep.ob("R-SETTER", "%s.%s reaches the stdlib transition" % (ci.name, name), ntrans > 0, "no path of the override performs the stdlib transition", where_of(m))
 
-    # ---- every other place where a library future changes its own state (e.g. mirroring a cancelled delegate)
-    rep.rule("R-TRANS", "wherever a _Future changes its own state (stdlib cancel / set_*), it does so with its own _me_lock held, and wherever it dispatches its callbacks it does not hold that lock and has changed state before on that path")
-    for ci in concrete:
-        seen_m = set()
-        for c in ci.mro():
-            if not isinstance(c, ClassInfo):
-                continue
-            for name, m in sorted(c.methods.items()):
-                if ci.lookup(name)[1] is not m or name in seen_m or name == "_me_invoke_callbacks":
-                    continue
-                seen_m.add(name)
-                ps, it = ctx.paths(m, ci, depth=0)
-                L = ("attr", ("param", "self"), lockf)
-                for p in ps:
-                    for e in p.calls():
-                        if e.fn is not m:
-                            continue
-                        if terminal_on(e, ("param", "self"), it, p) or (q.call_name(e) == "set_running_or_notify_cancel" and q.recv(e) == ("param", "self")):
-                            rep.ob("R-TRANS", "%s.%s[%s]: %s under the future's lock" % (c.name, name, ci.name, q.call_name(e)), q.has_lock(e, L),
-                                   "%s() changes the future's state without self._me_lock: a concurrent add_done_callback can see 'not done' and append to a callback list that is about to be / was already dispatched" % q.call_name(e), where_of(m, e.node), trace_of(p, e.seq))
-                        if e.d["callee"] is inv:
-                            rep.ob("R-TRANS", "%s.%s[%s]: callbacks dispatched without the future's lock" % (c.name, name, ci.name), not q.has_lock(e, L), "callbacks are dispatched with self._me_lock held", where_of(m, e.node), trace_of(p, e.seq))
+    trans_rule(ctx, rep, concrete, inv, lockf)
 
     # ---- test-then-use of a field under the future's lock needs its writers to take that lock
     rep.rule("R-TESTUSE", "a field of a future that some method tests and then uses under the future's lock (e.g. `if self._delegate and not self._delegate.cancel()`) is only written with that future's lock held (outside __init__)")
@@ -339,6 +318,32 @@ def check(ctx, rep):
                     key = "%s: job removal is safe against a concurrent cancel()" % m.qualname
                     rep.ob("R-JOBPOP", key, ok, "the job of %s is removed while its future may still be pending, without that future's lock and without an atomic replacement: a cancel() arriving now finds no job ('Cancel called on orphan') [%s]" % (fmt(D), q.path_sig(p)[:120]), where_of(e.fn, e.node), trace_of(p, e.seq))
     rep.count("retry job removals analysed (per root path)", npop, 8)
+
+
+def trans_rule(ctx, rep, concrete, inv, lockf):
+    # ---- every other place where a library future changes its own state (e.g. mirroring a cancelled delegate)
+    rep.rule("R-TRANS", "wherever a _Future changes its own state (stdlib cancel / set_*), it does so with its own _me_lock held, and wherever it dispatches its callbacks it does not hold that lock and has changed state before on that path")
+    for ci in concrete:
+        seen_m = set()
+        for c in ci.mro():
+            if not isinstance(c, ClassInfo):
+                continue
+            for name, m in sorted(c.methods.items()):
+                if ci.lookup(name)[1] is not m or name in seen_m or name == "_me_invoke_callbacks":
+                    continue
+                seen_m.add(name)
+                ps, it = ctx.paths(m, ci, depth=0)
+                L = ("attr", ("param", "self"), lockf)
+                for p in ps:
+                    for e in p.calls():
+                        if e.fn is not m:
+                            continue
+                        if terminal_on(e, ("param", "self"), it, p) or (q.call_name(e) == "set_running_or_notify_cancel" and q.recv(e) == ("param", "self")):
+                            rep.ob("R-TRANS", "%s.%s[%s]: %s under the future's lock" % (c.name, name, ci.name, q.call_name(e)), q.has_lock(e, L),
+                                   "%s() changes the future's state without self._me_lock: a concurrent add_done_callback can see 'not done' and append to a callback list that is about to be / was already dispatched" % q.call_name(e), where_of(m, e.node), trace_of(p, e.seq))
+                        if e.d["callee"] is inv:
+                            rep.ob("R-TRANS", "%s.%s[%s]: callbacks dispatched without the future's lock" % (c.name, name, ci.name), not q.has_lock(e, L), "callbacks are dispatched with self._me_lock held", where_of(m, e.node), trace_of(p, e.seq))
+
 
 
 def _no_cb_inline(callee, ev, path):
